@@ -115,15 +115,15 @@ def auto_replay(chk, table, rng):
     chk.sample({'auto_class_set': {'first_batch_max': 9, 'specification_size': table[(9, 0)]['size']}})
 
 
-ORDERS = [[5, 0, 300], [300, 5, 0], [0, 300, 5], [2, 0, 1], [1, 2, 0], [0, 1, 2, 9]]
+ORDERS = [[5, 0, 300], [300, 5, 0], [0, 300, 5], [2, 0, 1], [1, 2, 0], [0, 1, 2, 9], [0, 2, 1, 3], [0, 6, 2, 3], [3, 1, 2, 0], [0, 1, 3], [1, 0]]
 
 
 def histories(chk, rng):
     """state BY VALUE after every call, class lists in several orders, data with undeclared values"""
     cases = []
     n = 4
-    for classes in (ORDERS[:3] + ORDERS[3:5] if chk.tier == 'quick' else ORDERS + [list(p) for p in itertools.permutations([7, 3, 40])]):
-        und = [77, 65535] if max(classes) > 255 else [77, 3 if 3 not in classes else 99]
+    for classes in (ORDERS[:3] + ORDERS[3:5] + ORDERS[6:9] if chk.tier == 'quick' else ORDERS + [list(p) for p in itertools.permutations([7, 3, 40])] + [list(p) for p in itertools.permutations([0, 1, 2, 3])]):
+        und = [77, 65535] if max(classes) > 255 else [77, next(v for v in (1, 3, 4, 99) if v not in classes)]
         for kind, kw, combos in (('part', dict(S=2, W=2), [('float32', 'i16'), ('float64', 'f32q')]), ('mia', dict(S=1, W=2, lo=0, width=4, nb=3), [('uint32', 'u8')]),
                                  ('tplb', dict(S=2, W=1), [('float64', 'u8')]), ('tpld', dict(S=2, W=2, tpl=[[1, 2], [3, 1], [0, 2], [2, 2]][:len(classes)], ainv=[[2, 1], [1, 3]]), [('float64', 'i16')]),
                                  ('tplm', dict(S=2, W=1, tpl=[[1, 2], [3, 1], [0, 2], [2, 2]][:len(classes)], ainv=[[2, 1], [1, 3]]), [('float32', 'u8')])):
@@ -162,12 +162,12 @@ def results(chk, rng):
     n = 6 if chk.tier == 'quick' else 30
     pcases, mcases, groups = [], [], []
     for i in range(n):
-        base = rng.choice([[5, 0, 300], [2, 0, 1], [7, 3, 40, 1]])
-        perm = base[1:] + base[:1]
+        base = rng.choice([[5, 0, 300], [2, 0, 1], [7, 3, 40, 1], [0, 6, 2, 3], [0, 2, 1, 3]])
+        perm = base[1:] + base[:1] if i % 2 else [base[0]] + base[1:-1][::-1] + [base[-1]]
         sup = base + [11, 200]
         S, W = rng.choice([(2, 1), (1, 2)])
         c0 = dh.base_cfg('part', S=S, W=W, classes=tuple(base))
-        rows = dh.random_rows(rng, c0, rng.randint(5, 10), tmax=11, dvals=base + [77])
+        rows = dh.random_rows(rng, c0, rng.randint(5, 10), tmax=11, dvals=base + [77, next(v for v in (1, 4, 8) if v not in base)])
         rows += [{'t': [rng.randint(0, 11) for _ in range(S)], 'd': [cv] * W} for cv in base]      # no class empty
         kept = [r for r in rows if any(v in base for v in r['d'])]
         variants = [('order', base, rows), ('permuted', perm, rows), ('superset', sup, rows), ('undeclared-rows-removed', base, kept)]
